@@ -179,7 +179,7 @@ class ExprMixin:
                 parts = []
                 for x, v in zip(e.elts, vals):
                     if isinstance(x, ast.Starred):
-                        if isinstance(v, PyList):
+                        if isinstance(v, (PyList, PyTuple)):
                             parts.extend(("one", i) for i in v.items)
                         elif is_seq(v):
                             parts.append(("seq", v))
